@@ -15,7 +15,7 @@ import (
 )
 
 func checkC18(c *Check) {
-	c.Explain = "Decides, on the SSA form of main.go and tree.(*Tree).Compile as found in /repo now: (1) every error produced on the path input→parse→compile→output is either returned to the caller or leads, on every path from its non-nil test, to a non-zero process exit (os.Exit(≠0), log.Fatal*, panic) — for main.main this is the must-pass-through condition 'non-nil error ⇒ non-zero exit' for both values of -strict; (2) no such error is dropped outside four listed idioms; (3) a nil error is returned by Compile / the compile callback / parse only on paths dominated by the nil edge of the check of the stage that completes the output (printer Fprint to out ← Compile ← callback); (4) flags named inline/switch/noast/strict flow to the tree.New parameter / Tree field of the matching name, and the destination is opened with O_CREATE|O_TRUNC and a write mode. Not decided: what the operating system does after Fprint returned nil; the text of messages."
+	c.Explain = "Decides, on the SSA form of main.go and tree.(*Tree).Compile as found in /repo now: (1) every error produced on the path input→parse→compile→output is either returned to the caller or leads, on every path from its non-nil test, to a non-zero process exit (os.Exit(≠0), log.Fatal*, panic) — for main.main this is the must-pass-through condition 'non-nil error ⇒ non-zero exit' for both values of -strict; (2) no such error is dropped outside four listed idioms; (3) a nil error is returned by Compile / the compile callback / parse only on paths dominated by the nil edge of the check of the stage that completes the output (printer Fprint to out ← Compile ← callback); (4) flags named inline/switch/noast/strict flow to the tree.New parameter / Tree field of the matching name, and the destination is opened with O_CREATE|O_TRUNC and a write mode; (5) R-destination: the file opened for writing is named by the -output variable, which is defaulted only to flag.Arg(0)+\".go\"; the file opened for reading is flag.Arg(0); the streams handed on are os.Stdin/os.Stdout or those two files. Not decided: what the operating system does after Fprint returned nil; the text of messages."
 	c.Assume = []string{"go/ssa (x/tools v0.50.0) models main.go faithfully", "os.Exit(c≠0), log.Fatal*, panic terminate the process with non-zero status", "writes to a *bytes.Buffer cannot fail"}
 	c.Trusted = []string{"go/packages, go/types, go/ssa of golang.org/x/tools v0.50.0"}
 	r := mustRepo(c)
@@ -51,6 +51,7 @@ func checkC18(c *Check) {
 	completeBeforeZero(c, r, compile, scope)
 	wiring(c, r)
 	openFlags(c, r)
+	destination(c, r)
 }
 
 // errorDiscipline checks every error-producing call site in f.
